@@ -63,6 +63,37 @@ def run(sc):
                 w0.terminate(timeout=1)
             except Exception:
                 pass
+        # a worker that died ON ITS OWN (its target raised) was never closed by anybody: enqueue / call on it must still raise WorkerClosedError
+        wd = make(kind, T.square_or_die, [0], {}, addr)
+        try:
+            wd.enqueue(-1)
+            t0 = time.time()
+            while wd.is_alive() and time.time() - t0 < 10:
+                time.sleep(0.05)
+            obs['died_on_its_own'] = not wd.is_alive()
+            for what, op in (('enqueue(10)', lambda: wd.enqueue(10)), ('call(10)', lambda: wd.call(10))):
+                res = {}
+
+                def attempt(op=op, res=res):
+                    try:
+                        res['value'] = op()
+                    except WorkerClosedError:
+                        res['closed'] = True
+                    except BaseException as e:     # noqa
+                        res['other'] = f'{type(e).__name__}: {e}'
+                th = threading.Thread(target=attempt, daemon=True)
+                th.start()
+                th.join(8)
+                if th.is_alive():
+                    viol.append(f'{what} on a worker whose target had raised (dead, never closed) is still blocked after 8 s instead of raising WorkerClosedError')
+                elif not res.get('closed'):
+                    viol.append(f'{what} on a worker whose target had raised (dead, never closed) did not raise WorkerClosedError: ' +
+                                (f'raised {res["other"]}' if 'other' in res else f'returned {res.get("value")!r} (the input is accepted and never processed)'))
+        finally:
+            try:
+                wd.terminate(timeout=1)
+            except Exception:
+                pass
         w = make(kind, T.record, defaults, dkw, addr)
         got = []
         for a, k in inputs:
